@@ -902,6 +902,20 @@ impl<H: DnsHandle> DnssecDnsHandle<H> {
                 let query =
                     Query::new(rrsig.data().input().signer_name.clone(), RecordType::DNSKEY);
 
+                // "The RRSIG RR's Signer's Name field MUST be the name of the zone that contains the
+                // RRset" (RFC 4035 5.3.1): it can only be the owner name or an ancestor of it. An RRSIG
+                // naming any other zone proves nothing about this RRset - in particular the RRset must
+                // not inherit "insecure" from the keys of an unrelated unsigned zone.
+                if !rrsig.data().input().signer_name.zone_of(&Name::from(&key.name)) {
+                    warn!(
+                        rrset_name = ?key.name,
+                        rrset_type = ?key.record_type,
+                        signer_name = %rrsig.data().input().signer_name,
+                        "RRSIG signer name is not the owner or an ancestor of the owner; skipping"
+                    );
+                    return None;
+                }
+
                 if i > MAX_RRSIGS_PER_RRSET {
                     warn!(
                         rrset_name = ?key.name,
@@ -1073,6 +1087,13 @@ fn verify_rrsig_with_keys(
     // DNSKEYs were already validated by the inner query in the above lookup
     let dnskeys = dnskey_message.answers.iter().filter_map(|r| {
         let dnskey = r.try_borrow::<DNSKEY>()?;
+
+        // Only the signer's own DNSKEY RRset says anything about the signer zone: keys of other
+        // owners in the answer section must neither verify the signature nor lend their
+        // "insecure" status to the RRset.
+        if dnskey.name() != &rrsig.data().input().signer_name {
+            return None;
+        }
 
         let tag = match dnskey.data().calculate_key_tag() {
             Ok(tag) => tag,
